@@ -379,16 +379,22 @@ def oracle(case, obs):
 
 def _silent_before_run(case):
     seen = False
-    src = {}
+    src, at_run = {}, None
     for op in case["ops"]:
         if case["fam"] == "wfd":
-            # re-wiring an input that stays connected changes no key and no value of the workflow's input dictionary
+            # S5 for a Workflow: between two runs the internal wiring changed (directly, or by disconnecting and
+            # connecting elsewhere) while the SET of connected inputs -- hence the input dictionary's keys -- is the same
             if op[0] == "connect":
-                if op[1] in src and src[op[1]] != op[2]:
-                    seen = True
                 src[op[1]] = op[2]
             elif op[0] == "disconnect":
                 src.pop(op[1], None)
+            elif op[0] == "run":
+                if at_run is not None and set(at_run) == set(src) and at_run != src:
+                    seen = True
+                if seen:
+                    return True
+                at_run = dict(src)
+            continue
         if op[0].startswith("silent"):
             seen = True
         elif op[0] == "run" and seen:
@@ -396,7 +402,25 @@ def _silent_before_run(case):
     return False
 
 
+def _stale_assign_exposed(case):
+    """a value assigned to an input WHILE it is connected, and that input disconnected later: the uncached twin's
+    next run re-fetches over the assigned value, a run served from the workflow's cache does not"""
+    src, dirty = {}, set()
+    for op in case["ops"]:
+        if op[0] == "connect":
+            src[op[1]] = op[2]
+        elif op[0] == "assign" and op[1] in src:
+            dirty.add(op[1])
+        elif op[0] == "disconnect":
+            if op[1] in dirty and op[1] in src:
+                return True
+            src.pop(op[1], None)
+    return False
+
+
 def known(case, obs, verdict):
+    if case["fam"] == "wfd" and _stale_assign_exposed(case):
+        return "C05-cache-hit-skips-child-fetch"
     if case["fam"] in ("comp", "wfd") and _silent_before_run(case):
         return "S5-composite-cache-survives-internal-edit"
     return None
